@@ -7,7 +7,7 @@ class C04(OperatorCheck):
     cfgs = ("lex-rc2", "lex-z3")
     b3 = {
         "quick": [("L3", 4, 1, ("T21", 0)), ("L3MIX", 2, 1, ("T21", 0)), ("L3C3", 2, 1, ("W12", 0))],
-        "thorough": [("L3", 4, 2, (2, 2)), ("L3T", 4, 1, ("T21", 0)), ("L3PLUS", 3, 1, ("T21", 0)), ("L3MIX", 3, 1, ("T21", 0)), ("L3C3", 3, 1, ("W12", 0)),
+        "thorough": [("L3", 4, 2, (2, 2)), ("L3T", 4, 1, ("T21", 0)), ("L3PLUS", 3, 1, ("T21", 0)), ("L3MIX", 3, 1, ("T21", 0)), ("L3C3", 2, 3, ("W12", 0)),
                      ("L3", 5, 1, ("T21", 0), 2)],
     }
     rule = ("E-in: named scopes of C01 (quick: B1 x 89 semantic-class queries instead of all 264 syntactic ones), both back-ends; oracle: comparison of the lexicographically least "
